@@ -314,6 +314,10 @@ func (point Point) Expand(i, n int) Location {
 	if n < 0 && i == p {
 		return Between(i)
 	}
+	if n < 0 && i < p && p < i-n {
+		// The point lies strictly inside the deleted region.
+		return Between(i)
+	}
 	if (0 <= n && i <= p) || (n < 0 && i < p) {
 		p = Max(i, p+n)
 
